@@ -65,7 +65,7 @@ func clDeltaHandshakeOrder(c *Ctx) {
 						for _, cs := range p.CallSites(fn, w.fn) {
 							if isConstInt(initS)(callOf(cs).Args[1]) {
 								a := strip(callOf(cs).Args[i])
-								if fi.resolveCell(a) != ssa.Value(fn.Params[2]) && a != ssa.Value(fn.Params[2]) && !cellHolds(fi, a, fn.Params[2]) {
+								if fi.resolveCell(a) != strip(fn.Params[2]) && a != strip(fn.Params[2]) && !cellHolds(fi, a, fn.Params[2]) {
 									okv = false
 								}
 							}
